@@ -240,6 +240,10 @@ impl Controller for Ctl {
                 .collect();
             enabled.sort_unstable();
             let step = inner.step;
+            if debug_wakes() {
+                let names: Vec<String> = enabled.iter().map(|(_, i)| format!("{}#{}", inner.tasks[*i].name, i)).collect();
+                eprintln!("S step {step} first-polled {}#{id} enabled {:?}", inner.tasks[id].name, names);
+            }
             let (idx, budget) = match inner.deviations.get(inner.next_dev) {
                 Some(d) if d.pos == step => {
                     let d = *d;
@@ -316,6 +320,9 @@ impl Controller for Ctl {
 
     fn dropped(&self, id: usize) {
         let mut inner = self.inner.lock().unwrap();
+        if debug_wakes() {
+            eprintln!("D step {} dropped {}#{id} state {:?}", inner.step, inner.tasks[id].name, inner.tasks[id].state);
+        }
         inner.tasks[id].state = TState::Done;
         if inner.running == Some(id) {
             // The task panicked during its poll (after_poll was never called): the step is over.
@@ -326,11 +333,13 @@ impl Controller for Ctl {
                 inner.frozen = true;
             }
         } else if inner.selected == Some(id) {
-            // Selected but never polled: the step did not happen.
+            // Selected but dropped before it was polled (it had been aborted): the step is recorded as an
+            // empty step, so that a replay, which meets the same not-yet-dropped task in its enabled set,
+            // numbers its steps in the same way.
             inner.selected = None;
-            inner.trace.pop();
-            if inner.record_names {
-                inner.step_names.pop();
+            inner.step += 1;
+            if inner.step >= inner.horizon {
+                inner.frozen = true;
             }
         }
     }
